@@ -31,6 +31,10 @@ def gen_doc(r):
         apps.append(dict(name=r.choice(APPN), id=r.choice(gen.APPS),
                          cmds=[(r.choice(CMDN), r.choice(gen.CMDS)) for _ in range(r.range(0, 3))],
                          avps=[gen_def(r) for _ in range(r.range(0, 6))]))
+        if r.chance(1, 3):
+            # <vendor id=.../> under the application, as in the shipped 3GPP file (one of the vendor ids the definitions use, or another):
+            # it names the application's vendor; a definition is filed under its own vendor-id attribute, or under none
+            apps[-1]["vendor_elem"] = r.choice([1, 2, 10415, 193])
     return apps
 
 
@@ -562,6 +566,21 @@ def check_C15(chk, tier, seed):
                     expect.append(("build", d, leaf))
     cases += grow_cases
     expect += grow_expect
+    # a program extends the library's process-wide DEFAULT_DICT (a vendor AVP of its own, Session-Id re-typed) and LATER builds a
+    # dictionary of its own from the built-in document: that dictionary holds what its documents say - the pair only the global
+    # knows is refused, Session-Id is text (at the end of the run: nothing before it sees the changed global)
+    bx = builtin_xml(core.REPO)
+    for dline in ("DGLOBAL " + add_toks(dict(code=70001, vendor=4242, name=b"Glob-Vendor-Only", ty="u64", m=False)),
+                  "DGLOBAL " + add_toks(dict(code=70002, vendor=None, name=b"Glob-Only", ty="u32", m=False)),
+                  "DGLOBAL " + add_toks(dict(code=263, vendor=None, name=b"Session-Id", ty="oct", m=True)),
+                  dict_line("tglob", [load_toks(bx)]),
+                  dict_line("tglob2", [load_toks(bx), add_toks(dict(code=70003, vendor=None, name=b"Mine", ty="u32", m=False))])):
+        cases.append(dline)
+        expect.append(("ctl", None, 0, "-"))
+    for did in ("tglob", "tglob2"):
+        for (c, v, data, ty) in ((70001, 4242, SAMPLE_DATA["u64"], None), (70002, None, SAMPLE_DATA["u32"], None), (263, None, b"ses;1", "utf"), (264, None, b"host.example", "id")):
+            cases.append(f"X {did} {xb(one_avp_frame(c, v, data))}")
+            expect.append(("scope", ty, f"({c}, {v}) in a dictionary built from the built-in document after DEFAULT_DICT was extended", None, v))
     eng.prelude = prelude
     impl, model = eng.run(cases, shards=1)
     stage2, s2idx = [], []
